@@ -15,6 +15,7 @@ VARIANT_FLAGS = {
               "-fsanitize-recover=undefined", "-fno-sanitize=function"],
     "tsan":  ["-O1", "-g", "-fno-omit-frame-pointer", "-fsanitize=thread"],
     "plain": ["-O2", "-g", "-fno-omit-frame-pointer"],
+    "dbg":   ["-O0", "-g", "-fno-omit-frame-pointer"],
 }
 
 ALLOC_DEFS = [
